@@ -13,6 +13,8 @@ import (
 	"github.com/idena-network/idena-go/config"
 	"github.com/idena-network/idena-go/core/state"
 	"github.com/idena-network/idena-go/crypto"
+	"github.com/idena-network/idena-go/log"
+	statsTypes "github.com/idena-network/idena-go/stats/types"
 	"github.com/idena-network/idena-go/verifutil"
 	dbm "github.com/tendermint/tm-db"
 )
@@ -55,6 +57,7 @@ type c17World struct {
 	shard      int
 	worldNo    int
 	altTx      *types.Transaction
+	stats      *statsTypes.ValidationStats // statistics object of the proposer's first-pass evaluation
 	chainLive  bool // the 3-link transitive delegation chain is on chain in this epoch
 	nondet     bool // the proposer's own re-executions of the final block disagreed
 	altNote    string
@@ -107,6 +110,7 @@ func (c *c17World) finalBlock(b *types.Block, p *Replica) {
 	c.rep.Progress("C17 world %d seed %d: final block %d of epoch %d", c.worldNo, w.Opt.Seed, b.Height(), c.sim.Plan.Epoch)
 	// the proposer evaluated once while building (first pass); every further evaluation hits its
 	// cache. Same node, same block, same prior state: every evaluation must give the same verdict.
+	c.stats = p.Real().VC.VerifValidationStats()
 	live := len(c.sim.Plan.Chain3) == 4
 	c.chainLive = live
 	n := c.K
@@ -364,6 +368,20 @@ func (c *c17World) afterFinal(b *types.Block) {
 		}
 	}
 	sort.Strings(trans)
+	if c.sim.Debug {
+		var el []string
+		for _, r := range w.Eligible() {
+			el = append(el, r.Name)
+		}
+		fmt.Printf("DBG epoch %d done: eligible=%v failed=%v\n", pl.Epoch, el, failed)
+		for _, n := range append([]*Actor{w.God}, w.Nodes...) {
+			var is interface{}
+			if c.stats != nil && c.stats.Shards[1] != nil && c.stats.Shards[1].IdentitiesPerAddr[n.Addr] != nil {
+				is = *c.stats.Shards[1].IdentitiesPerAddr[n.Addr]
+			}
+			fmt.Printf("DBG   %s %s -> %s stats=%+v inblock=%v\n", n.Name, stateNames[c.pre[n.Addr].State], stateNames[st.GetIdentity(n.Addr).State], is, pl.InBlock[n.Addr])
+		}
+	}
 	if changes > 0 {
 		rep.Count("real_epochs_with_status_change", 1)
 		rep.Distinct("epoch", b.Hash().Hex())
@@ -474,6 +492,14 @@ func TestVerifC17Real(t *testing.T) {
 		sim := NewCeremonySim(w, rng.Fork(1), rep)
 		c.sim = sim
 		sim.Debug = os.Getenv("VERIF_C17_DEBUG") != ""
+		if sim.Debug {
+			log.Root().SetHandler(log.FuncHandler(func(r *log.Record) error {
+				if r.Msg == "Tx is invalid" || r.Msg == "Tx removed by nonce" {
+					rep.Count(fmt.Sprintf("dbg_pool_%s_%v", r.Msg, ErrClass(fmt.Errorf("%v", r.Ctx[len(r.Ctx)-1]))), 1)
+				}
+				return nil
+			}))
+		}
 		for _, r := range c.restarters {
 			sim.Profiles[r] = &NetProfile{LossPct: 15, MaxDelay: 3}
 		}
